@@ -3,8 +3,6 @@ package main
 import (
 	"fmt"
 	"math/rand"
-	"os"
-	"runtime"
 	"sync"
 	"time"
 
@@ -350,26 +348,6 @@ func runLongT(c *longCase) *finding {
 			if err != nil {
 				if v := l.Violations(); len(v) > 0 {
 					return &finding{class: pre + v[0].Kind, msg: v[0].Msg}
-				}
-				if os.Getenv("VERIF_C12_DEBUG") != "" {
-					evs := l.P.Events()
-					for _, e := range evs[max(0, len(evs)-30):] {
-						fmt.Fprintln(os.Stderr, "EV", e.String(), e.HeadersErr)
-					}
-					for _, b := range batch {
-						select {
-						case <-b.q.done:
-							fmt.Fprintln(os.Stderr, "REQ", b.idx, b.fate, "done err=", b.q.err)
-						default:
-							fmt.Fprintln(os.Stderr, "REQ", b.idx, b.fate, "running")
-						}
-					}
-					for _, id := range l.StreamIDs() {
-						x := l.Stream(id)
-						fmt.Fprintln(os.Stderr, "STREAM", id, x.Headers, x.Ended, x.ImplReset)
-					}
-					buf := make([]byte, 1<<22)
-					os.Stderr.Write(buf[:runtime.Stack(buf, true)])
 				}
 				return &finding{class: pre + "no-headers", msg: err.Error() + " " + ended(), incon: ended() == ""}
 			}
